@@ -137,6 +137,23 @@ func main() {
 		if err := os.WriteFile(*out, ob, 0o644); err != nil {
 			os.Exit(2)
 		}
+	case "gen":
+		// Development aid: print the scenario of run i of a batch (a replayable file).
+		fs := flag.NewFlagSet("gen", flag.ExitOnError)
+		prop := fs.String("prop", "", "")
+		batch := fs.String("batch", "", "")
+		tier := fs.String("tier", "quick", "")
+		i := fs.Int("i", 0, "")
+		_ = fs.Parse(os.Args[2:])
+		e := props.EngineFor(*prop, *batch)
+		if e == nil {
+			os.Exit(2)
+		}
+		rs := core.RunSeed(envSeed(), *prop, *batch, *i)
+		sc := e.Generate(core.NewRand(rs), core.Tier(*tier))
+		sc.Property, sc.Batch, sc.Seed = *prop, *batch, rs
+		ob, _ := json.MarshalIndent(sc, "", " ")
+		fmt.Println(string(ob))
 	case "replay":
 		if len(os.Args) < 3 {
 			usage()
